@@ -5,10 +5,10 @@ import itertools
 from hypothesis import strategies as st
 
 from props import c04
-from vlib import gen_fields, gen_tables, model_validio
+from vlib import cidlib, gen_fields, gen_tables, model_validio
 from vlib.runner import norm_message
 
-from cutplace import errors
+from cutplace import errors, validio
 
 PROPERTY_ID = "C05"
 RULE = (
@@ -156,6 +156,30 @@ def judge(sub, case, spec, rows, stored, source_factory, base_name, label):
             elif c04.compare_outcomes(sub, "C05|limit", dict(case, limit=limit), spec, limited, items, base_name,
                                       label):
                 c04.compare_end(sub, "C05|limit", dict(case, limit=limit), limited, ended, label)
+    # a reader that exists before the CID has (all of) its checks: what counts is the CID at the time of reading
+    if spec["checks"] and spec["fmt"].get("layout") in (None, "late-properties"):
+        try:
+            cid = cidlib.load_cid(cidlib.cid_rows(spec["fmt"], spec["fields"], []))
+            reader = validio.Reader(cid, source_factory("yield"), on_error="yield")
+            for row in gen_tables.check_rows(spec):
+                cid.add_check_row(list(row[1:]))
+        except Exception as error:
+            sub.fail("C05|late-checks|setup|%s" % type(error).__name__, case,
+                     "adding the checks after the reader was created raised %s: %s" % (type(error).__name__, error))
+            return expected
+        items, ended = [], None
+        try:
+            with reader:
+                for item in reader.rows():
+                    items.append(item)
+        except Exception as error:  # noqa: judged below
+            ended = error
+        sub.evaluations += 1
+        if ended is not None and not isinstance(ended, errors.DataError):
+            sub.fail("C05|late-checks|exception|%s" % type(ended).__name__, case,
+                     "reading raised %s: %s" % (type(ended).__name__, ended))
+        elif c04.compare_outcomes(sub, "C05|late-checks", case, spec, expected, items, base_name, label):
+            c04.compare_end(sub, "C05|late-checks", case, expected, ended, label)
     return expected
 
 
